@@ -95,6 +95,7 @@ type op struct {
 type precBuf struct {
 	prec byte
 	buf  []byte
+	not  bool
 }
 
 type multivalue []any
@@ -832,6 +833,7 @@ func (s *Script) appendOp(o *op, left, right any) (pb *precBuf) {
 	pb = &precBuf{prec: o.prec}
 	switch o.code {
 	case not.code:
+		pb.not = true
 		pb.buf = append(pb.buf, o.name...)
 		pb.buf = s.appendValue(pb.buf, left, o.prec)
 	case group.code:
@@ -858,13 +860,26 @@ func (s *Script) appendOp(o *op, left, right any) (pb *precBuf) {
 		}
 		pb.buf = append(pb.buf, ')')
 	default:
-		pb.buf = s.appendValue(pb.buf, left, o.prec)
+		pb.buf = s.appendOperand(pb.buf, left, o.prec, false)
 		pb.buf = append(pb.buf, ' ')
 		pb.buf = append(pb.buf, o.name...)
 		pb.buf = append(pb.buf, ' ')
-		pb.buf = s.appendValue(pb.buf, right, o.prec)
+		pb.buf = s.appendOperand(pb.buf, right, o.prec, true)
 	}
 	return
+}
+
+// appendOperand appends an operand of a binary operator. Equal precedence is
+// read back left to right so a right operand of the same precedence keeps its
+// parenthesis and a ! as left operand is wrapped or it would capture the
+// operator when read back.
+func (s *Script) appendOperand(buf []byte, v any, prec byte, right bool) []byte {
+	if pb, ok := v.(*precBuf); ok && ((right && prec == pb.prec && !pb.not) || (!right && pb.not)) {
+		buf = append(buf, '(')
+		buf = append(buf, pb.buf...)
+		return append(buf, ')')
+	}
+	return s.appendValue(buf, v, prec)
 }
 
 func (s *Script) appendValue(buf []byte, v any, prec byte) []byte {
